@@ -241,6 +241,9 @@ func init() {
 	reg("net.JoinHostPort", func(w *World, t *Thread, fr *frame, fn *ssa.Function, args []Value) Value {
 		hs, ps := args[0].(Str), args[1].(Str)
 		if h := w.hostTok(hs); h != nil {
+			if _, ok := ps.Concrete(); !ok {
+				return Str{opq: true, taint: hs.taint | ps.taint}
+			}
 			port := w.concStr(fr, ps, "port")
 			br := w.decideBool(w.colonForm(h), "v6 text form")
 			return mkHostStr(&HostTok{ip: h.ip, mappedText: h.mappedText, zone: h.zone, name: h.name, full: true, bracket: br, hasPort: true, port: port})
